@@ -485,6 +485,15 @@ func (x *textract) nodeTree(v ssa.Value) *tterm {
 			return x.tree(y.Common().Args[0])
 		}
 	case *ssa.Phi:
+		if isLoopHeaderPhi(y) {
+			// a loop-carried node (`n, err = read(); for … { …; n, err = read() }`): the node
+			// under the cursor of this iteration
+			n := y.Comment
+			if n == "" {
+				n = y.Name()
+			}
+			return &tterm{kind: "param", name: n}
+		}
 		var first *tterm
 		for _, e := range y.Edges {
 			if isNilConst(e) {
